@@ -25,7 +25,7 @@ def _wide(chk, quick):
     around 2^31, 2^32, 2^63, 2^64), the virtual field read through the checked API at landmark environments."""
     import re
     from . import c05, bounds_pool, bounds_cpp
-    ncase = 900 if quick else 6000
+    ncase = 600 if quick else 6000
     procs = 4 if quick else 12
     n = 0
     with Scratch("c04w") as sc:
@@ -63,11 +63,11 @@ def run(chk, only=None):
     total = 0
     if not only or "enum" in only:
         with Scratch("c04e") as sc:
-            gen, gres = view_run.generated_programs(sc, 8 if quick else 150, chk.seed + 4, 5 if quick else 6, 2, name="c04")
+            gen, gres = view_run.generated_programs(sc, 5 if quick else 150, chk.seed + 4, 5 if quick else 6, 2, name="c04")
             chk.add_tlc(gres, part="ProgGen")
             chk.extra["generated_programs"] = len(gen)
             allp = progs + gen
-            budget = 500 if quick else 6000
+            budget = 350 if quick else 6000
             for n in run_parallel([(lambda p=p: c01.check_program(chk, sc, p, chk.tier, budget, san=True)) for p in allp],
                                   nproc=max(2, NCPU // 4)):
                 total += n
@@ -79,7 +79,7 @@ def run(chk, only=None):
     for mode, actions in (("single", ["wr", "tx"]), ("pair", ["cp", "eq", "wr"]), ("trunc", ["wr"])):
         if only and mode not in only:
             continue
-        nbeh = (10 if quick else 200) if mode != "trunc" else (40 if quick else 400)
+        nbeh = (10 if quick else 200) if mode != "trunc" else (20 if quick else 400)
         t, e = view_beh.run_behaviours(chk, mode, actions, nbeh=nbeh, depth=(6 if quick else 10) if mode != "trunc" else 3, progs=progs, san=True)
         ntr += t
         nev += e
